@@ -34,7 +34,7 @@ BoundsK(k) == CASE k = "u16" -> U16s [] k = "i16" -> I16s [] k = "i32" -> I32s [
 
 \* one-hot variation of a base record over the value fields of a layout
 OneHot(L, base, skip) ==
-  FlattenSeq([i \in 1 .. Len(L) |->
+  Cat([i \in 1 .. Len(L) |->
      IF L[i].n = "" \/ L[i].n \in skip THEN <<>>
      ELSE LET bs == BoundsK(L[i].k) IN [j \in 1 .. Len(bs) |-> [base EXCEPT ![L[i].n] = bs[j]]]])
 Extreme(L, base, skip, which) ==      \* every field at its which-th boundary (1 = lowest, 0 = highest)
@@ -59,7 +59,7 @@ HheaVals == <<HheaBase, Extreme(HheaL, HheaBase, {}, 1), Extreme(HheaL, HheaBase
 
 Sub13(a) == [i \in 1 .. 13 |-> (a * i) % 65536]
 MaxpVals ==
-  FlattenSeq([i \in 1 .. Len(U16s) |->
+  Cat([i \in 1 .. Len(U16s) |->
      <<[ng |-> U16s[i], sub |-> <<>>], [ng |-> U16s[i], sub |-> Sub13(7)]>>])
   \o <<[ng |-> 5, sub |-> [i \in 1 .. 13 |-> 65535]], [ng |-> 5, sub |-> [i \in 1 .. 13 |-> 0]],
        [ng |-> 5, sub |-> Sub13(5041)]>>
@@ -98,7 +98,7 @@ Os2TailsMax(v) == [v EXCEPT !.v0 = IF @ = <<>> THEN @ ELSE <<32767, -32768, -1, 
                             !.v5 = IF @ = <<>> THEN @ ELSE <<65535, 0>>]
 Os2Vals ==
   <<Os2Base0>>                                       \* 68-byte legacy form
-  \o FlattenSeq([ver \in 1 .. 6 |-> LET b == Os2Ver(Os2Base0, ver - 1) IN
+  \o Cat([ver \in 1 .. 6 |-> LET b == Os2Ver(Os2Base0, ver - 1) IN
         <<b, Os2TailsMax(b), Extreme(Os2BaseL, b, Os2Skip, 1), Extreme(Os2BaseL, Os2TailsMax(b), Os2Skip, 0),
           [b EXCEPT !.fssel = 1023], [b EXCEPT !.fssel = 0], [b EXCEPT !.fssel = 512 + 128 + 1]>>])
   \o OneHot(Os2BaseL, Os2Ver(Os2Base0, 4), Os2Skip)
@@ -201,7 +201,7 @@ GlyphVals ==
 IntEdges == {0, 107, 108, 1131, 1132, 32767, 32768, 65535, 65536, 8388607, 8388608, 2147483645}
 IntSet == (UNION {{e - 1, e, e + 1, -e - 1, -e, -e + 1} : e \in IntEdges})
           \cup {2147483647, -2147483647, -2147483647 - 1}
-          \cup (IF Thorough THEN -1200 .. 1200 ELSE {})
+          \cup (IF Thorough THEN (-1200 .. 1200) \cup (32500 .. 33000) \cup (-33000 .. -32500) ELSE {})
 IntSeq == SetToSortSeq(IntSet, LAMBDA a, b : a < b)
 CffIntVals == [i \in 1 .. Len(IntSeq) |-> I(IntSeq[i])]
               \o <<O(0), O(1), O(107), O(-1), O(65536), O(2147483647), O(-2147483647 - 1)>>
@@ -233,6 +233,9 @@ DictVals ==
     DV("priv", <<E(6, <<I(-20), I(20), I(450), I(20)>>), E(10, <<I(80)>>), E(3084, <<I(80), I(12)>>)>> \o PrivDefaultsE
                \o <<E(19, <<I(120)>>)>>, 1),
     DV("priv", <<E(20, <<I(32767)>>), E(21, <<I(-32768)>>), E(3080, <<I(0)>>)>>, 5),
+    \* zero where the default is not zero: must be kept
+    DV("priv", <<E(3082, <<I(0)>>), E(3083, <<I(0)>>), E(3081, <<I(0)>>), E(3090, <<I(0)>>)>>, 1),
+    DV("top", <<E(3075, <<I(0)>>), E(3076, <<I(0)>>), E(3078, <<I(0)>>), E(3106, <<I(0)>>), E(3079, <<I(0), I(0), I(0), I(0), I(0), I(0)>>)>>, 1),
     DV("font", <<E(3110, <<I(400)>>), E(18, <<I(10), I(20)>>), E(3073, <<I(0)>>)>>, 1),
     DV("top2", <<E(3079, FontMatrixDefault), E(17, <<I(50)>>), E(3108, <<I(60)>>), E(24, <<I(16)>>)>>, 1),
     DV("priv2", <<E(22, <<I(0)>>), E(22, <<I(1)>>), E(3082, <<I(7)>>), E(3086, <<I(0)>>), E(23, <<I(1), I(2), I(1)>>)>>, 1)>>
@@ -240,10 +243,10 @@ DictVals ==
 Obj(n, c) == [i \in 1 .. n |-> c]
 IV(lens, sz, c32) == [lens |-> lens, sz |-> sz, c32 |-> c32]
 IndexVals ==
-  FlattenSeq([c \in 1 .. 2 |->
+  Cat([c \in 1 .. 2 |->
     <<IV(<<>>, 1, c = 2)>>
-    \o FlattenSeq([sz \in 1 .. 4 |-> <<IV(<<0>>, sz, c = 2), IV(<<1>>, sz, c = 2), IV(<<3, 0, 2>>, sz, c = 2), IV(<<254>>, sz, c = 2)>>])
-    \o FlattenSeq([sz \in 2 .. 4 |-> <<IV(<<255>>, sz, c = 2), IV(<<100, 155, 1>>, sz, c = 2)>>])])
+    \o Cat([sz \in 1 .. 4 |-> <<IV(<<0>>, sz, c = 2), IV(<<1>>, sz, c = 2), IV(<<3, 0, 2>>, sz, c = 2), IV(<<254>>, sz, c = 2)>>])
+    \o Cat([s \in 1 .. 3 |-> <<IV(<<255>>, s + 1, c = 2), IV(<<100, 155, 1>>, s + 1, c = 2)>>])])
 IndexOwnedVals ==
   <<[lens |-> <<>>], [lens |-> <<0>>], [lens |-> <<1>>], [lens |-> <<3, 0, 2>>], [lens |-> <<254>>], [lens |-> <<255>>],
     [lens |-> <<100, 154>>], [lens |-> <<100, 155>>], [lens |-> <<0, 0, 0, 255, 0>>], [lens |-> <<65534>>], [lens |-> <<65535>>],
@@ -319,10 +322,12 @@ Case ==
     LET rd == ReadNormDict(v.entries) IN
     [k |-> kind, id |-> idx, v |-> [kind |-> v.kind, entries |-> rd],
      src |-> EncDictForm(v.entries, v.form),
-     exp |-> OkExp(EncDict(NormDict(v.kind, rd)), NormDict(v.kind, rd))]
+     exp |-> [res |-> "Ok", bytes |-> EncDict(NormDict(v.kind, rd)), back |-> NormDict(v.kind, rd),
+              back1 |-> rd, dk |-> v.kind]]
   ELSE IF kind = "index" THEN
     LET objs == ObjsOf(v.lens)  bs == EncIndex(objs, v.sz, v.c32) IN
-    [k |-> kind, id |-> idx, v |-> [objs |-> objs, c32 |-> v.c32], src |-> bs, exp |-> OkExp(bs, objs)]
+    [k |-> kind, id |-> idx, v |-> [objs |-> objs, c32 |-> v.c32], src |-> bs,
+     exp |-> [res |-> "Ok", bytes |-> bs, back |-> objs, c32 |-> v.c32]]
   ELSE IF kind = "indexo" THEN
     LET offs == IndexOffsets(v.lens) IN
     [k |-> kind, id |-> idx, v |-> [lens |-> v.lens, fill |-> [i \in 1 .. Len(v.lens) |-> Fill(i)]],
@@ -368,11 +373,11 @@ IntOK(a) ==
 DictOKc(v) ==
   LET rd == ReadNormDict(v.entries)  nd == NormDict(v.kind, rd) IN
   /\ DictOk(v.entries)
-  /\ DecDict(EncDictForm(v.entries, v.form)) = rd            \* every integer form reads back
-  /\ DecDict(EncDict(rd)) = rd
-  /\ DecDict(EncDict(nd)) = nd
-  /\ NormDict(v.kind, nd) = nd                                \* idempotent
-  /\ ReadNormDict(rd) = rd
+  /\ EntriesEq(DecDict(EncDictForm(v.entries, v.form)), rd)  \* every integer form reads back
+  /\ EntriesEq(DecDict(EncDict(rd)), rd)
+  /\ EntriesEq(DecDict(EncDict(nd)), nd)
+  /\ EntriesEq(NormDict(v.kind, nd), nd)                      \* idempotent
+  /\ EntriesEq(ReadNormDict(rd), rd)
   /\ DictWrittenOk(v.kind, rd, nd) /\ DictWrittenOk(v.kind, rd, rd)
   /\ \A i \in 1 .. Len(nd) : ~IsDefault(v.kind, nd[i])
 
